@@ -10,9 +10,17 @@ Section DaemonProofs.
   Variable rib_ev : Type.
   Variable rib_step : ribT -> rib_ev -> ribT * bool.
   Variable rib_dead : ribT -> N -> ribT * bool.
-  Hypothesis flag_sound : forall r e, snd (rib_step r e) = false -> rib_view (fst (rib_step r e)) = rib_view r.
-  Hypothesis dead_flag_sound : forall r n, snd (rib_dead r n) = false -> rib_view (fst (rib_dead r n)) = rib_view r.
-  Hypothesis dead_removes : forall r n x, n <> 0 -> In x (rib_view (fst (rib_dead r n))) -> re_nh1 x <> n /\ re_nh2 x <> n.
+  (* an invariant of RIB states (True for an unconstrained RIB) under which the facts hold *)
+  Variable rib_inv : ribT -> Prop.
+  Hypothesis step_keeps : forall r e, rib_inv r -> rib_inv (fst (rib_step r e)).
+  Hypothesis dead_keeps : forall r n, rib_inv r -> rib_inv (fst (rib_dead r n)).
+  (* same view = the same entries, in whatever order *)
+  Hypothesis flag_sound : forall r e, rib_inv r -> snd (rib_step r e) = false ->
+    forall x, In x (rib_view (fst (rib_step r e))) <-> In x (rib_view r).
+  Hypothesis dead_flag_sound : forall r n, rib_inv r -> snd (rib_dead r n) = false ->
+    forall x, In x (rib_view (fst (rib_dead r n))) <-> In x (rib_view r).
+  Hypothesis dead_removes : forall r n x, rib_inv r -> n <> 0 ->
+    In x (rib_view (fst (rib_dead r n))) -> re_nh1 x <> n /\ re_nh2 x <> n.
 
   Notation dstate := (dstate ribT).
   Notation tables_of := (tables_of ribT rib_view).
@@ -22,21 +30,21 @@ Section DaemonProofs.
   Notation drun := (drun ribT rib_view rib_ev rib_step rib_dead).
 
   Definition Mirror (d : dstate) : Prop := forall p f, rt_lookup (d_rt _ d) (p, f) = desired (tables_of d) p f.
-  Definition DInv (d : dstate) : Prop := FInv (d_fib _ d) (d_rt _ d) /\ Mirror d.
+  Definition DInv (d : dstate) : Prop := FInv (d_fib _ d) (d_rt _ d) /\ Mirror d /\ rib_inv (d_rib _ d).
 
-  Lemma run_fu_inv o1 o2 d : FInv (d_fib _ d) (d_rt _ d) -> DInv (run_fu o1 o2 d).
+  Lemma run_fu_inv o1 o2 d : FInv (d_fib _ d) (d_rt _ d) -> rib_inv (d_rib _ d) -> DInv (run_fu o1 o2 d).
   Proof.
-    intros HI. unfold run_fu.
+    intros HI HR. unfold run_fu.
     destruct (fib_update_spec o1 o2 (tables_of d) (d_fib _ d) (d_rt _ d) HI) as [A B].
     destruct (fib_update_ord o1 o2 (tables_of d) (d_fib _ d)) as [st cs]. simpl in *.
-    split; [exact A|]. intros p f. simpl. rewrite (fi_rt _ _ A). apply B.
+    split; [exact A|]. split; [|exact HR]. intros p f. simpl. rewrite (fi_rt _ _ A). apply B.
   Qed.
 
   (* a handler that does not run fibUpdate keeps the invariant when `desired` is unchanged *)
-  Lemma keep_inv d d' : DInv d -> d_fib _ d' = d_fib _ d -> d_rt _ d' = d_rt _ d ->
+  Lemma keep_inv d d' : DInv d -> d_fib _ d' = d_fib _ d -> d_rt _ d' = d_rt _ d -> rib_inv (d_rib _ d') ->
     (forall p f, desired (tables_of d') p f = desired (tables_of d) p f) -> DInv d'.
   Proof.
-    intros [HI HM] Ef Er Hd. split; [rewrite Ef, Er; exact HI|].
+    intros [HI [HM _]] Ef Er HR Hd. split; [rewrite Ef, Er; exact HI|]. split; [|exact HR].
     intros p f. rewrite Er, Hd. apply HM.
   Qed.
 
@@ -65,63 +73,81 @@ Section DaemonProofs.
     simpl in *. auto.
   Qed.
 
-  Lemma kill_clean ns : forall d b, snd (kill ns d b) = false ->
+  Lemma kill_ribinv ns : forall d b, rib_inv (d_rib _ d) -> rib_inv (d_rib _ (fst (kill ns d b))).
+  Proof.
+    induction ns as [|n ns IH]; intros d b HR; simpl; [exact HR|].
+    destruct (N.eqb n 0); [apply IH, HR|].
+    pose proof (dead_keeps (d_rib _ d) n HR) as Hk.
+    destruct (rib_dead (d_rib _ d) n) as [rib' f]. apply IH. exact Hk.
+  Qed.
+
+  Lemma kill_clean ns : forall d b, rib_inv (d_rib _ d) -> snd (kill ns d b) = false ->
     b = false /\ forall p f, desired (tables_of (fst (kill ns d b))) p f = desired (tables_of d) p f.
   Proof.
-    induction ns as [|n ns IH]; intros d b H; simpl in *; [auto|].
-    destruct (N.eqb_spec n 0) as [Hz|Hz]; [apply IH, H|].
-    pose proof (dead_flag_sound (d_rib _ d) n) as Hfs.
+    induction ns as [|n ns IH]; intros d b HR H; simpl in *; [auto|].
+    destruct (N.eqb_spec n 0) as [Hz|Hz]; [apply IH; assumption|].
+    pose proof (dead_flag_sound (d_rib _ d) n HR) as Hfs.
     pose proof (dead_removes (d_rib _ d) n) as Hrm.
+    pose proof (dead_keeps (d_rib _ d) n HR) as Hk.
     destruct (rib_dead (d_rib _ d) n) as [rib' f]. simpl in *.
-    destruct (IH _ _ H) as [Hb Hd]. apply orb_false_iff in Hb. destruct Hb as [-> ->].
+    destruct (IH (with_rib _ rib' (with_nbr _ (aremove n (d_nbr _ d)) d)) (b || f) Hk H) as [Hb Hd].
+    apply orb_false_iff in Hb. destruct Hb as [-> ->].
     split; [reflexivity|]. intros p q. rewrite Hd.
     apply desired_frame; simpl; auto.
-    - intros r Hr. rewrite <- (Hfs eq_refl) in Hr. destruct (Hrm r Hz Hr) as [H1 H2].
+    - intros r Hr. apply (Hfs eq_refl) in Hr. destruct (Hrm r HR Hz Hr) as [H1 H2].
       split; apply face_of_aremove_other; assumption.
   Qed.
 
   Lemma dstep_inv d e : DInv d -> DInv (dstep d e).
   Proof.
-    intros HD. pose proof HD as [HI HM]. destruct e; simpl.
+    intros HD. pose proof HD as [HI [HM HR]]. destruct e; simpl.
     - (* DPing *)
       destruct (N.eqb (face_of (d_nbr _ d) n) face).
-      + apply (keep_inv d); auto. intros p f. apply desired_frame; simpl; auto.
+      + apply (keep_inv d); auto. intros p f. apply desired_frame; simpl; auto; [tauto|].
         intros r _. split; apply face_of_aset_cur.
-      + destruct accept; [apply run_fu_inv; exact HI|].
-        apply (keep_inv d); auto. intros p f. apply desired_frame; simpl; auto.
+      + destruct accept; [apply run_fu_inv; assumption|].
+        apply (keep_inv d); auto. intros p f. apply desired_frame; simpl; auto; [tauto|].
         intros r _. split; apply face_of_aset_cur.
     - (* DRib *)
-      pose proof (flag_sound (d_rib _ d) e) as Hf.
-      destruct (rib_step (d_rib _ d) e) as [rib' dirty]. simpl in Hf.
-      destruct dirty; [apply run_fu_inv; exact HI|].
-      apply (keep_inv d); auto. intros p f. apply desired_frame; simpl; auto.
+      pose proof (flag_sound (d_rib _ d) e HR) as Hf.
+      pose proof (step_keeps (d_rib _ d) e HR) as Hk.
+      destruct (rib_step (d_rib _ d) e) as [rib' dirty]. simpl in Hf, Hk.
+      destruct dirty; [apply run_fu_inv; assumption|].
+      apply (keep_inv d); auto. intros p f. apply desired_frame; simpl; auto; try (apply Hf; reflexivity).
     - (* DDead *)
-      pose proof (kill_fibrt ns d false) as [Kf [Kr Km]]. pose proof (kill_clean ns d false) as Kc.
+      pose proof (kill_fibrt ns d false) as [Kf [Kr Km]]. pose proof (kill_clean ns d false HR) as Kc.
+      pose proof (kill_ribinv ns d false HR) as Ki.
       destruct (kill ns d false) as [d' dirty]. simpl in *.
       destruct dirty.
-      + apply run_fu_inv. rewrite Kf, Kr. exact HI.
+      + apply run_fu_inv; [rewrite Kf, Kr; exact HI|exact Ki].
       + apply (keep_inv d); auto. apply Kc. reflexivity.
     - (* DPfx *)
-      destruct (apply_dirty ops) eqn:Ed; [apply run_fu_inv; exact HI|].
-      apply (keep_inv d); auto. intros p f. apply desired_frame; simpl; auto.
+      destruct (apply_dirty ops) eqn:Ed; [apply run_fu_inv; assumption|].
+      apply (keep_inv d); auto. intros p f. apply desired_frame; simpl; auto; [tauto|].
       intros r _ _ _ q. unfold pfx_of, DvDaemon.tables_of, with_pfx. cbn [t_pfx d_pfx].
       destruct (N.eq_dec (re_name r) router) as [->|Hne].
       * rewrite alookup_aset_same, (apply_ops_clean _ _ Ed). reflexivity.
       * rewrite alookup_aset_other by exact Hne. reflexivity.
     - exact HD.
-    - apply run_fu_inv. exact HI.
+    - apply run_fu_inv; assumption.
   Qed.
 
-  Lemma dinit_inv me r0 : rib_view r0 = [] -> DInv (dinit ribT me r0).
+  (* at start the RIB holds at most the router's own entry (Router.Start: rib.Set(self, self, 0)) *)
+  Lemma dinit_inv me r0 : rib_inv r0 -> (forall x, In x (rib_view r0) -> re_name x = me) -> DInv (dinit ribT me r0).
   Proof.
-    intros H. split; [apply FInv_init|]. intros p f. simpl. unfold desired, cands. simpl. rewrite H. reflexivity.
+    intros HR H. split; [apply FInv_init|]. split; [|exact HR]. intros p f. simpl.
+    destruct (desired (tables_of (dinit ribT me r0)) p f) as [c|] eqn:E; [|reflexivity]. exfalso.
+    unfold desired in E. apply min_cost_Some in E. destruct E as [E _]. apply cands_In in E.
+    destruct E as [r [Hr [He _]]]. simpl in Hr. unfold elig in He. apply andb_true_iff in He. destruct He as [_ He].
+    apply negb_true_iff, N.eqb_neq in He. apply He. simpl. apply H, Hr.
   Qed.
 
-  Lemma daemon_keeps_mirror_l : forall me r0 evs, rib_view r0 = [] -> Mirror (drun me r0 evs).
+  Lemma daemon_keeps_mirror_l : forall me r0 evs, rib_inv r0 -> (forall x, In x (rib_view r0) -> re_name x = me) ->
+    Mirror (drun me r0 evs).
   Proof.
-    intros me r0 evs H. unfold drun.
+    intros me r0 evs HR H. unfold drun.
     assert (G : forall l d, DInv d -> DInv (fold_left dstep l d)).
     { induction l as [|e l IH]; intros d Hd; simpl; [exact Hd|]. apply IH, dstep_inv, Hd. }
-    apply (G evs (dinit ribT me r0) (dinit_inv me r0 H)).
+    apply (G evs (dinit ribT me r0) (dinit_inv me r0 HR H)).
   Qed.
 End DaemonProofs.
